@@ -1112,6 +1112,47 @@ pub fn gen_c19(asm: &Asm, rng: &mut Rng, sh: &mut Shards, path: &str, thorough: 
         sh.count("mixed-valid-invalid-sequences", 1);
         sh.unit(&evs);
     }
+    // a preprocessor object and a context / output pair reused after clear() answer like fresh ones
+    {
+        use emulator_8086_lib::{Preprocessor, PreprocessorContext, PreprocessorOutput};
+        let pre = Preprocessor::new();
+        let mut ctx = PreprocessorContext::default();
+        let mut out = PreprocessorOutput::default();
+        let sources: [&str; 6] = [
+            "x: db 5\ny: dw [3 , 4]\nstart:\nmov ax, word y\njmp l\nl: hlt\n",
+            "macro m(a) -> inc a <-\ndef f {\ninc bx\n}\nstart:\nm(ax)\ncall f\njmp nowhere\n",
+            "start:\nmov ax,\n",
+            "z: db \"hi\"\nstart:\nmov al, byte z\nprint reg\n",
+            "start:\nm(ax)\n",
+            "x: dw 7\nstart:\nmov bx, offset x\ncall f\n",
+        ];
+        let fingerprint = |r: bool, c: &PreprocessorContext, o: &PreprocessorOutput| -> String {
+            let mut labels: Vec<String> = c.label_map.iter().map(|(k, v)| format!("{}={}:{:?}", k, v.map, v.get_type())).collect();
+            labels.sort();
+            let mut fns: Vec<String> = c.fn_map.iter().map(|(k, v)| format!("{}={}", k, v)).collect();
+            fns.sort();
+            let mut und: Vec<String> = c.undefined_labels.iter().map(|(p, n)| format!("{}@{}", n, p)).collect();
+            und.sort();
+            format!("{}|{:?}|{:?}|{:?}|{:?}|{:?}", r, o.data, o.code, labels, fns, und)
+        };
+        for round in 0..(if thorough { 40 } else { 8 }) {
+            for (k, s) in sources.iter().enumerate() {
+                let src = sources[(k + round) % sources.len()];
+                let _ = s;
+                ctx.clear();
+                out.clear();
+                let reused = std::panic::catch_unwind(std::panic::AssertUnwindSafe(|| pre.parse(&mut ctx, &mut out, src).is_ok())).unwrap_or(false);
+                let fp_reused = fingerprint(reused, &ctx, &out);
+                let fresh_pre = Preprocessor::new();
+                let mut c2 = PreprocessorContext::default();
+                let mut o2 = PreprocessorOutput::default();
+                let fresh = std::panic::catch_unwind(std::panic::AssertUnwindSafe(|| fresh_pre.parse(&mut c2, &mut o2, src).is_ok())).unwrap_or(false);
+                let fp_fresh = fingerprint(fresh, &c2, &o2);
+                sh.count("preprocessor-reuse", 1);
+                sh.unit(&[json!({"ev":"repeat","runs":2,"identical":fp_reused == fp_fresh,"what":format!("reused preprocessor/context after clear() vs fresh on source #{}: {} vs {}", (k + round) % sources.len(), fp_reused.chars().take(150).collect::<String>(), fp_fresh.chars().take(150).collect::<String>())})]);
+            }
+        }
+    }
     // concurrent threads: private machines, one shared interpreter object
     let nthreads = 8;
     let per = if thorough { 600 } else { 120 };
